@@ -308,8 +308,12 @@ func Minimise(w *World, focus, tier string, vals []int, want *Violation, budget 
 				}
 			}
 		}
-		// 2. delete blocks
-		for size := 8; size >= 1; size /= 2 {
+		// 2. delete blocks (delta-debugging style: from half the tape down to single choices)
+		start := len(best) / 2
+		if start < 8 {
+			start = 8
+		}
+		for size := start; size >= 1; size /= 2 {
 			for i := 0; i+size <= len(best); {
 				cand := append(append([]int(nil), best[:i]...), best[i+size:]...)
 				cand = trim(cand)
